@@ -148,6 +148,19 @@ def exact_div(term, k):
 
 
 ICMP = {"eq": "==", "ne": "!=", "slt": "<", "sle": "<=", "sgt": ">", "sge": ">="}
+UCMP = {"ult": "<", "ule": "<=", "ugt": ">", "uge": ">="}
+
+
+def icmp_pred(pred, va, vb):
+    """LLVM icmp on i32 values held as mathematical integers in [-2^31, 2^31): unsigned predicates compare the
+    bit patterns."""
+    if pred in ICMP:
+        return icmp(ICMP[pred], va, vb)
+    if pred in UCMP:
+        ua = sym.simp_int(sym.ite(icmp("<", va, 0), sym.iadd(va, 2**32), va))
+        ub = sym.simp_int(sym.ite(icmp("<", vb, 0), sym.iadd(vb, 2**32), vb))
+        return icmp(UCMP[pred], ua, ub)
+    raise HarnessError(f"icmp predicate {pred}")
 
 
 def is_float(v):
@@ -307,7 +320,7 @@ class LLExec:
                 r = sym.beq(va, vb)
                 self.regs[dest] = r if pred == "eq" else bnot(r)
             else:
-                self.regs[dest] = icmp(ICMP[pred], va, vb)
+                self.regs[dest] = icmp_pred(pred, va, vb)
             return None
         if op == "zext":
             mm = re.match(r"(\S+)\s+(\S+)\s+to\s+(\S+)", rest)
